@@ -224,7 +224,7 @@ Proof.
   - (* child *)
     unfold c_step. destruct (c_stat (cs s)); try reflexivity.
     destruct (nth_error C (c_pc (cs s))) as [op|] eqn:En; [|reflexivity].
-    assert (Hdo : forall a, c_do b s a = c_do b' s a).
+    assert (Hdo : forall a, c_do P b s a = c_do P b' s a).
     { intro a. unfold c_do, c_payload. rewrite Hp, Hb. reflexivity. }
     destruct op; try reflexivity.
     + rewrite Ha, Ho. reflexivity.
